@@ -127,6 +127,13 @@ def job_boundaries(ctx, jr, own, n, D):
 
 def replayer(v):
     """run the program natively: every block keyword gets a trivially true/empty header and each line records itself"""
+    if v.get('kind') == 'c04_l2':
+        script = 'arr = array %s\n' % ' '.join(v['array']) + '\n'.join(v['script'])
+        out = H.replay(dict(mode='scripted_sdk', script=script, vars=v['vars'], recorders=['emit'], recorder_output='', probes=['probe'])); v['native'] = out
+        if out.get('panic'): return (True, 'native panic')
+        if not out.get('ok'): return (True, 'native run failed: %r' % (out.get('error'),))
+        trace = ''.join((l['arguments'][0] if l['command'] == 'probe' else ''.join(l['arguments'])) for l in out.get('log', []))
+        return (trace != v['expected_trace'], 'native trace %r, tree-walking interpreter %r' % (trace, v['expected_trace']))
     if v.get('kind') != 'c04_l1': return (None, 'no replayer')
     prog = v['program']; lines = []
     mark = 0
@@ -154,9 +161,229 @@ def main(tier, seed):
     chk.replayer = replayer
     n, D = (9, 3) if tier == 'quick' else (12, 3)
     for own in (IF, WHILE, FOR): chk.job(job_boundaries, 'L1:%s' % KNAMES[own], own=own, n=n, D=D)
-    chk.bounds = dict(layer1='opener at line 0 followed by <= %d symbolic lines, nesting <= %d, every alias / full-name spelling of every block keyword' % (n - 1, D))
-    chk.assumptions = ['layer 1 only: the block boundary discovery (find_commands + create_*_meta_info_for_line) on symbolic program structure; the whole-run layer '
-                       '(branch selection, loop iteration, per-construct call stacks) is not built yet', 'well-nestedness within the depth bound is assumed by a symbolic stack recogniser',
-                       'keyword spellings are obtained by executing the real name()/aliases() from the MIR']
+    nprog = 72 if tier == 'quick' else 480
+    seeds = [seed * 100000 + i for i in range(nprog)]
+    for gi in range(12): chk.job(job_runs, 'L2:programs/%d' % gi, seeds=seeds[gi::12], depth=2 if tier == 'quick' else 3, size=7 if tier == 'quick' else 10)
+    chk.bounds = dict(layer1='opener at line 0 followed by <= %d symbolic lines, nesting <= %d, every alias / full-name spelling of every block keyword' % (n - 1, D),
+                      layer2='%d generated well-nested programs (if/elseif/else, while, for-in, emit, set), each run for every assignment of its condition variables and array length; array items symbolic' % nprog)
+    chk.assumptions = ['layer 1: block boundary discovery (find_commands + create_*_meta_info_for_line) on fully symbolic program structure, well-nestedness assumed by a symbolic stack recogniser',
+                       'layer 2: whole runs through the real runner and the real flow-control commands (registry built by executing flowcontrol::load) against a tree-walking interpreter; the programs are '
+                       'generated (seeded) and the control-flow dimension (condition values, array length) is enumerated exhaustively per program - only the data dimension is decided by the solver',
+                       'conditions are variable values true/false (other truthiness spellings and command conditions are C06/C09); while loops run at most 2 iterations; keyword spellings are chosen per site from the real name()/aliases()',
+                       'emit is a recording harness command, set is the real command']
     results = chk.run()
     return chk.finish(results, 'every obligation is a solver query over all well-nested programs and keyword spellings within the bounds')
+
+
+# ====================================================================== layer 2: whole runs of structured programs
+from mirsym.models import map_lookup as _lookup, map_insert as _insert, str_concat as _concat
+from .c03 import choose as _choose
+from .c06 import truthy as _truthy
+from .c11 import hook_put_handle as _put_handle
+import random as _random
+
+CRES = 'types::command::CommandResult'
+COND_VALUES = ['true', 'false']
+ITEMS = 'pq'
+
+
+def gen_program(rnd, depth, budget):
+    """random well-nested block; returns a list of statements (see render / interp)"""
+    out = []
+    n = rnd.randint(1, 3)
+    for _ in range(n):
+        if budget[0] <= 0: break
+        k = rnd.choice(['emit', 'emit', 'if', 'while', 'for', 'set'] if depth > 0 else ['emit', 'set'])
+        budget[0] -= 1
+        if k == 'emit':
+            out.append(('emit', [rnd.choice([chr(97 + budget[1] % 20), ('var', 'i'), ('var', 's')])])); budget[1] += 1
+        elif k == 'set':
+            out.append(('set', 's', rnd.choice(['1', ('var', 'i'), ('var', 'c1')])))
+        elif k == 'if':
+            nb = rnd.randint(1, 3); branches = []
+            for b in range(nb):
+                cv = ('var', 'c%d' % rnd.randint(1, 3))
+                if rnd.random() < 0.4: cv = ('probe', chr(65 + budget[1] % 26), cv[1]); budget[1] += 1
+                branches.append((cv, gen_program(rnd, depth - 1, budget)))
+            els = gen_program(rnd, depth - 1, budget) if rnd.random() < 0.6 else None
+            out.append(('if', branches, els))
+        elif k == 'while':
+            w = 'w%d' % budget[1]; budget[1] += 1
+            body = gen_program(rnd, depth - 1, budget) + [('set', w, ('var', w + 'n')), ('set', w + 'n', 'false')]
+            out.append(('while', w, body))
+        else:
+            out.append(('for', 'i', 'arr', gen_program(rnd, depth - 1, budget)))
+    return out
+
+
+def render(prog, sp, rnd, lines=None):
+    lines = [] if lines is None else lines
+    def a(x):
+        if isinstance(x, tuple) and x[0] == 'probe': return 'probe %s ${%s}' % (x[1], x[2])
+        return '${%s}' % x[1] if isinstance(x, tuple) else x
+    for st in prog:
+        if st[0] == 'emit': lines.append('emit ' + ' '.join(a(x) for x in st[1]))
+        elif st[0] == 'set': lines.append('%s = set %s' % (st[1], a(st[2])))
+        elif st[0] == 'if':
+            for bi, (c, blk) in enumerate(st[1]):
+                lines.append('%s %s' % (rnd.choice(sp[IF] if bi == 0 else sp[ELSEIF]), a(c))); render(blk, sp, rnd, lines)
+            if st[2] is not None:
+                lines.append(rnd.choice(sp[ELSE])); render(st[2], sp, rnd, lines)
+            lines.append(rnd.choice(sp[ENDIF] + sp[END]))
+        elif st[0] == 'while':
+            lines.append('%s ${%s}' % (rnd.choice(sp[WHILE]), st[1])); render(st[2], sp, rnd, lines); lines.append(rnd.choice(sp[ENDWHILE] + sp[END]))
+        elif st[0] == 'for':
+            lines.append('%s %s in ${%s}' % (rnd.choice(sp[FOR]), st[1], st[2])); render(st[3], sp, rnd, lines); lines.append(rnd.choice(sp[ENDFOR] + sp[END]))
+    return lines
+
+
+def interp(prog, store, g, arr):
+    """tree-walking interpreter over a symbolic store: var -> (defined, S). Returns the store after the block under guard g."""
+    def val(x):
+        if isinstance(x, tuple):
+            d, v = store.get(x[1], (False, S(0, [])))
+            return merge(d, v, S(0, []))
+        return mk_str(x)
+    def assign(name, v, cond):
+        d0, v0 = store.get(name, (False, S(0, [])))
+        store[name] = (simp(zor(d0, cond)), merge(cond, v, v0))
+    for st in prog:
+        if st[0] == 'emit':
+            add = S(0, [])
+            for x in st[1]: add = _concat(add, val(x))
+            assign('trace', _concat(store['trace'][1], add), g)
+        elif st[0] == 'set':
+            assign(st[1], val(st[2]), g)
+        elif st[0] == 'if':
+            taken = False
+            for c, blk in st[1]:
+                if c[0] == 'probe':
+                    # a command used as condition runs (and is observed) exactly when its branch is reached
+                    assign('trace', _concat(store['trace'][1], mk_str(c[1])), simp(zand(g, znot(taken))))
+                    cv = _truthy(val(('var', c[2])))
+                else: cv = _truthy(val(c))
+                here = simp(zand(g, znot(taken), cv))
+                interp(blk, store, here, arr); taken = zor(taken, cv)
+            if st[2] is not None: interp(st[2], store, simp(zand(g, znot(taken))), arr)
+        elif st[0] == 'while':
+            gg = g
+            for _ in range(3):
+                cv = _truthy(val(('var', st[1])))
+                gg = simp(zand(gg, cv))
+                if gg is False: break
+                interp(st[2], store, gg, arr)
+        elif st[0] == 'for':
+            alen, items = arr
+            for k in range(len(items)):
+                gk = simp(zand(g, k < alen))
+                if gk is False: break
+                assign(st[1], items[k], gk)
+                interp(st[3], store, gk, arr)
+    return store
+
+
+def job_runs(ctx, jr, seeds, depth, size):
+    """whole runs: per generated program every assignment of the condition variables and the array length is executed with
+    concrete control flow (the program counter is concretised, DESIGN.md 2.2); the array items stay symbolic"""
+    import itertools
+    sp = spellings(ctx)
+    jr.bounds = dict(programs=len(seeds), nesting=depth, statements='<= %d' % size, condition_values=COND_VALUES, array='0..2 symbolic items from %r' % ITEMS, while_iterations='<= 2',
+                     control='exhaustive over the condition variables and the array length of each program')
+    vs = ctx.types.enums['types::runtime::StateValue']; STR = vs.index('String'); LIST = vs.index('List'); SUB = vs.index('SubState')
+    for sd in seeds:
+        rnd = _random.Random(sd)
+        prog = gen_program(rnd, depth, [size, 0])
+        lines = render(prog, sp, rnd)
+        used = sorted({x[1] for s_ in _walk(prog) for x in _args_of(s_) if isinstance(x, tuple)})
+        cnames = [n for n in ('c1', 'c2', 'c3') if n in used]
+        wnames = sorted({s_[1] for s_ in _walk(prog) if s_[0] == 'while'})
+        has_for = any(s_[0] == 'for' for s_ in _walk(prog))
+        dims = [COND_VALUES] * (len(cnames) + 2 * len(wnames)) + [[0, 1, 2] if has_for else [0]]
+        names = cnames + [w for w in wnames] + [w + 'n' for w in wnames]
+        jr.samples.append(' | '.join(lines))
+        for assign in itertools.product(*dims):
+            vals = dict(zip(names, assign[:-1])); alen = assign[-1]
+            e = ctx.engine(unwind=120, max_rec=8); e.int_digits = 2
+            e.hooks['utils::state::put_handle'] = _put_handle
+            e.hooks['std::sync::atomic::Atomic::<bool>::load'] = lambda eng, st1, a, c: False
+            t0 = time.time()
+            st = State(True, {})
+
+            def h_emit(eng, st1, a):
+                c = a[1]; vars_p = c.f[2]; mv = eng.deref(st1, vars_p)
+                f, tr, _ = _lookup(eng, st1, mv, mk_str('trace'))
+                add = S(0, [])
+                for i, x in enumerate(c.f[0].it): add = merge(simp(i < c.f[0].len), _concat(add, x), add)
+                m2, _, _ = _insert(eng, st1, mv, mk_str('trace'), _concat(tr if f is not False else S(0, []), add))
+                eng.store(st1, vars_p, m2)
+                return E(CRES, 0, {0: [none()]})
+            def h_probe(eng, st1, a):
+                c = a[1]; vars_p = c.f[2]; mv = eng.deref(st1, vars_p)
+                f, tr, _ = _lookup(eng, st1, mv, mk_str('trace'))
+                m2, _, _ = _insert(eng, st1, mv, mk_str('trace'), _concat(tr if f is not False else S(0, []), c.f[0].it[0]))
+                eng.store(st1, vars_p, m2)
+                return E(CRES, 0, {0: [some(c.f[0].it[1]) if len(c.f[0].it) > 1 else none()]})
+            e.dyn_impls[('harness::Emit', 'run')] = h_emit
+            e.dyn_impls[('harness::Emit', 'clone_and_box')] = lambda eng, st1, a: eng.alloc(st1, a[0])
+            e.dyn_impls[('harness::Probe', 'run')] = h_probe
+            e.dyn_impls[('harness::Probe', 'clone_and_box')] = lambda eng, st1, a: eng.alloc(st1, a[0])
+            st.m[(0, 'cmds')] = T([M([(True, mk_str('emit'), e.alloc(st, T([], 'harness::Emit'))), (True, mk_str('probe'), e.alloc(st, T([], 'harness::Probe'))),
+                                      (True, mk_str('set'), e.alloc(st, T([mk_str('std')], 'sdk::std::var::set::CommandImpl')))]), M([])], 'types::command::Commands')
+            e.run_call('sdk::std::flowcontrol::load', st, [P(0, 'cmds'), mk_str('std')], 'sdk')
+            commands = st.m[(0, 'cmds')]
+            aitems = [S(1, [e.fresh_int('arr.%d' % k, ord('p'), ord('q'))]) for k in range(alen)]
+            lst = E('types::runtime::StateValue', LIST, {LIST: [V(alen, [E('types::runtime::StateValue', STR, {STR: [x]}) for x in aitems])]})
+            state = M([(True, mk_str('handles'), E('types::runtime::StateValue', SUB, {SUB: [M([(True, mk_str('handle:arr'), lst)])]}))])
+            init = {'trace': S(0, []), 'arr': mk_str('handle:arr')}
+            for n_, v_ in vals.items(): init[n_] = mk_str(v_)
+            variables = M([(True, mk_str(n_), v_) for n_, v_ in init.items()])
+            instrs = []
+            for i, l in enumerate(lines):
+                toks = l.split(); out = None
+                if len(toks) >= 2 and toks[1] == '=': out = toks[0]; toks = toks[2:]
+                si = T([none(), some(mk_str(out)) if out else none(), some(mk_str(toks[0])), some(V(len(toks) - 1, [mk_str(t) for t in toks[1:]])) if len(toks) > 1 else none()], 'types::instruction::ScriptInstruction')
+                instrs.append(T([meta_new(i + 1), E('types::instruction::InstructionType', 2, {2: [si]})], 'types::instruction::Instruction'))
+            context = T([variables, state, commands], 'types::runtime::Context')
+            env = some(T([Opaque('out'), Opaque('err'), e.alloc(st, False)], 'types::env::Env'))
+            rs, rv = e.run('core', 'runner::run', [V(len(instrs), instrs), context, env], st)
+            jr.symex_time += time.time() - t0
+            if rs is None:
+                e.obligations.append(Obligation(True, False, 'C04 run(seed %d): the structured program never returns' % sd, 'assert', 'oracle'))
+                rs = State(True, {}); rv = E('std::result::Result', 1, {})
+            store = {n_: (True, v_) for n_, v_ in init.items()}
+            interp(prog, store, True, (alen, aitems))
+            checks = [('the structured program runs to completion', zeq(rv.d, 0))]
+            if 0 in rv.p:
+                fin = rv.p[0][0].f[0]
+                for name in ['trace', 's'] + wnames:
+                    if name not in store: continue
+                    f, v, _ = _lookup(e, rs, fin, mk_str(name))
+                    d0, v0 = store[name]
+                    checks.append(('variable %s defined as by the tree-walking interpreter' % name, zimp(zeq(rv.d, 0), zeq(f, d0))))
+                    if f is not False: checks.append(('final %s equals the tree-walking interpreter (%s)' % (name, 'trace of executed commands with their arguments' if name == 'trace' else 'value'),
+                                                      zimp(zand(zeq(rv.d, 0), f, d0), str_eq(v, v0))))
+            for msg, c in checks: e.obligations.append(Obligation(rs.g, c, 'C04 run(seed %d): %s' % (sd, msg), 'assert', 'oracle'))
+
+            def extract(m, o=None):
+                return dict(kind='c04_l2', script=lines, vars=vals, array=[solve.model_str(m, x) for x in aitems], expected_trace=solve.model_str(m, store['trace'][1]))
+            res = discharge_known(e, jr, PID, {}, extract)
+            H.finish_job(jr, e, res)
+            if jr.violations: break
+
+
+def _args_of(s_):
+    if s_[0] == 'emit': return list(s_[1])
+    if s_[0] == 'set': return [s_[2]]
+    if s_[0] == 'if': return [(('var', c[2]) if c[0] == 'probe' else c) for c, b in s_[1]]
+    if s_[0] == 'while': return [('var', s_[1])]
+    return []
+
+
+def _walk(prog):
+    for s_ in prog:
+        yield s_
+        if s_[0] == 'if':
+            for c, b in s_[1]: yield from _walk(b)
+            if s_[2]: yield from _walk(s_[2])
+        elif s_[0] == 'while': yield from _walk(s_[2])
+        elif s_[0] == 'for': yield from _walk(s_[3])
